@@ -8,7 +8,7 @@ EXPLANATION = (
     "format_code returned Ok, only if the text differs, with the formatted text, to the path that was read; "
     "(R-WORKERS) every worker closure sends exactly one Result on every normal path and the output loop only ends "
     "when the channel is closed; (R-LOOPEXIT) inside the directory-walk loop only configuration / ignore-file errors can abort the run - no per-file operation is followed by `?`; (R-ERRSTATUS) every Err handled by the output thread raises the status to 2; (R-EXIT) worker panics map to status 2; (R-VERIFY) format_ast returns Err on both "
-    "verification failures before Ok(ast). Not decided: atomicity of fs::write itself, read-only files.")
+    "verification failures before Ok(ast), and with OutputVerification::Full every path to Ok(ast) passes the reparse of the printed formatted tree and AstVerifier::compare(input clone, reparse) == true. Not decided: atomicity of fs::write itself, read-only files.")
 ASSUMPTIONS = ["std::fs::write either fails or replaces the file (its own atomicity is outside the stated fault model)",
                "threadpool counts panicking jobs in panic_count()",
                "rustc MIR and Instance::try_resolve are trusted"]
@@ -61,6 +61,54 @@ def rule_verify(ctx, prop):
         # the compare happens on every path to Ok when verification was requested: the Some edge of
         # input_ast_for_verification dominates... (Ok is reached either via None edge or via compare true)
         rep.floor("Ok(ast) returns in format_ast", len(oks), 1, cfg)
+        # --- path form: with verify_output == Full, every path that returns Ok went through the reparse (Ok edge) of
+        # the printed formatted tree and through AstVerifier::compare(== true) of the input clone with the reparse
+        from paths import Enumerator, TooManyPaths
+        vi = [i for i in range(1, f.argc + 1) if f.locals[i].endswith("OutputVerification")]
+        if not rep.anchor(len(vi) == 1, "verify_output parameter of format_ast", cfg):
+            continue
+        try:
+            res = Enumerator(f, init_disc={f"arg:{vi[0]}": "Full"}, summaries=False, max_paths=5000).run()
+        except TooManyPaths:
+            rep.anchor(False, "format_ast: too many paths", cfg)
+            continue
+        nok = 0
+        for st in res:
+            v0 = st.vals.get(0)
+            if not (v0 and v0[0] == "agg" and v0[2] == "Ok"):
+                continue
+            nok += 1
+            parsed = [(b, t) for b, c, t in st.calls if re.search(r"full_moon::parse(_fallible)?$", c)]
+            cmpd = [(b, t) for b, c, t in st.calls if c.endswith("AstVerifier::compare")]
+            why = None
+            if not parsed:
+                why = "no-reparse"
+            elif not cmpd:
+                why = "no-compare"
+            elif st.decisions.get(cmpd[0][0]) is not True:
+                why = "compare-result-ignored"
+            else:
+                # what is reparsed is the printed formatted tree; what is compared is the input clone and the reparse
+                pt = parsed[0][1]
+                src = prov_calls(provenance(f, pt["args"][0]))
+                fmt_ok = any(c.endswith("CodeFormatter::format") for c in src)
+                roots = [provenance(f, x) for x in cmpd[0][1]["args"][1:3]]
+                cl_ok = any(("arg", 1) in r for r in roots) and \
+                    any(re.search(r"parse(_fallible)?$|into_result$", c) for r in roots for c in prov_calls(r))
+                if not fmt_ok:
+                    why = "reparse-of-something-else"
+                elif not cl_ok:
+                    why = "compare-operands"
+            rep.inst(f"{f.key} verify=Full path to Ok reparses and compares", {"calls": [c.split("::")[-1] for _, c, _ in st.calls]},
+                     cfg, ok=why is None)
+            if why:
+                skipped_by = sorted({callee(f.blocks[b]["term"]).split("::")[-1] for b in st.decisions} |
+                                    {k for k, v in st.disc.items() if k.startswith("call:") and v in ("None", "Some")})
+                rep.violation(f"{f.key} verification-skipped {why}",
+                              f"with OutputVerification::Full a path of format_ast returns Ok(ast) with {why} (decided by "
+                              f"{skipped_by}): unparseable or altered output is returned as a success and the CLI writes it "
+                              f"over the file", f.loc(), cfg)
+        rep.floor("verify=Full paths of format_ast returning Ok", nok, 1, cfg)
     return rep
 
 
